@@ -37,6 +37,8 @@ GROUPS = {
    [('copy_slice_is_model', 'copy_slice_eq'), ('copy_sample_is_model', 'copy_sample_eq'),
     ('get_subset_slice_axis_is_model', 'get_subset_key_slice_eq'), ('get_subset_spatial_axis_copies', 'get_subset_key_spatial_eq'),
     ('get_subset_sample_axis_is_model', 'get_subset_key_sample_eq')]),
+ 'cli': ('dcmstack_cli.py: the naming of output files in main',
+   [('cli_out_name_is_model', 'cli_out_name_eq')]),
  'group': ('dcmstack.py: the placement step of parse_and_group',
    [('group_place_is_model', 'group_place_eq'), ('group_place_keeps_keys_distinct', 'place_nodup')]),
  'filter': ('dcmstack.py: make_key_regex_filter and its inner function',
@@ -54,7 +56,7 @@ GROUPS = {
     ('get_data_trim_is_model', 'get_data_trim_eq')]),
 }
 EXTRA = {'subset': 'variable [DecidableEq α]\n', 'filter': 'variable {ρ : Type}\n', 'group': 'variable {E V : Type} [DecidableEq E]\n'}
-OPENS = {'group': 'Src Grp', 'orient': 'Src Orient', 'phoenix': 'Src Phx', 'header': 'Src Stk', 'stackadd': 'Src Stk', 'stack': 'Src Stk', 'data': 'Src Stk Wrap', 'wrapsplit': 'Src Wrap', 'wrapmerge': 'Src Wrap'}
+OPENS = {'cli': 'Src Cli', 'group': 'Src Grp', 'orient': 'Src Orient', 'phoenix': 'Src Phx', 'header': 'Src Stk', 'stackadd': 'Src Stk', 'stack': 'Src Stk', 'data': 'Src Stk Wrap', 'wrapsplit': 'Src Wrap', 'wrapmerge': 'Src Wrap'}
 for grp, (srcfile, pairs) in GROUPS.items():
     mod = 'Code_' + grp
     sys.argv = ['x', 'C00', '/verif/lean/DcmVerif/Proofs/%s.lean' % mod, 'Src.', 'DcmVerif.Proofs.%s' % mod]
